@@ -19,13 +19,15 @@ pub struct Mapping {
     pub fd: i32,
     pub prot: i32,
     pub live: bool,
+    /// released by an exact or covering munmap and not yet known to be re-used by anyone
+    pub dead_exact: bool,
     pub serial: u64,
     pub op: u16,
     /// advice values passed to madvise on this mapping, in call order (up to 4)
     pub advice: [i32; 4],
     pub nadvice: u8,
 }
-const NOMAP: Mapping = Mapping { addr: 0, len: 0, fd: -1, prot: 0, live: false, serial: 0, op: 0, advice: [0; 4], nadvice: 0 };
+const NOMAP: Mapping = Mapping { addr: 0, len: 0, fd: -1, prot: 0, live: false, dead_exact: false, serial: 0, op: 0, advice: [0; 4], nadvice: 0 };
 
 static mut MAPS: [Mapping; MCAP] = [NOMAP; MCAP];
 static mut NMAPS: usize = 0;
@@ -88,6 +90,17 @@ pub unsafe extern "C" fn mmap(addr: *mut libc::c_void, len: libc::size_t, prot: 
     if r == -1 {
         return libc::MAP_FAILED;
     }
+    {
+        lock();
+        let maps = &mut *std::ptr::addr_of_mut!(MAPS);
+        let (rs, re) = (r as usize, r as usize + len);
+        for i in 0..NMAPS {
+            if !maps[i].live && maps[i].dead_exact && maps[i].addr < re && rs < maps[i].addr + maps[i].len.max(1) {
+                maps[i].dead_exact = false;
+            }
+        }
+        unlock();
+    }
     if inl {
         lock();
         // reuse a dead slot with the same address if any, else append
@@ -109,7 +122,7 @@ pub unsafe extern "C" fn mmap(addr: *mut libc::c_void, len: libc::size_t, prot: 
                 NMAPS - 1
             }
         };
-        maps[i] = Mapping { addr: r as usize, len, fd, prot, live: true, serial: SERIAL.fetch_add(1, Ordering::Relaxed), op: CUR_OP.with(|c| c.get()), advice: [0; 4], nadvice: 0 };
+        maps[i] = Mapping { addr: r as usize, len, fd, prot, live: true, dead_exact: false, serial: SERIAL.fetch_add(1, Ordering::Relaxed), op: CUR_OP.with(|c| c.get()), advice: [0; 4], nadvice: 0 };
         unlock();
     }
     r as *mut libc::c_void
@@ -143,6 +156,20 @@ pub unsafe extern "C" fn munmap(addr: *mut libc::c_void, len: libc::size_t) -> l
     lock();
     let maps = &mut *std::ptr::addr_of_mut!(MAPS);
     let n0 = NMAPS;
+    // releasing again exactly the range of a loader mapping that was already released (and that nobody
+    // has mapped over since, as far as calls through these symbols show): a double release. Recorded and
+    // NOT forwarded.
+    let overlaps_live = (0..n0).any(|i| maps[i].live && a < maps[i].addr + maps[i].len.max(1) && maps[i].addr < end.max(a + 1));
+    if !overlaps_live {
+        if let Some(i) = (0..n0).find(|&i| !maps[i].live && maps[i].dead_exact && maps[i].addr == a && maps[i].len == len) {
+            if NMVIOL < 16 {
+                (*std::ptr::addr_of_mut!(MVIOLS))[NMVIOL] = Some((MViol::DoubleUnmap, maps[i].len));
+            }
+            NMVIOL += 1;
+            unlock();
+            return 0;
+        }
+    }
     for i in 0..n0 {
         let m = maps[i];
         if !m.live {
@@ -154,6 +181,7 @@ pub unsafe extern "C" fn munmap(addr: *mut libc::c_void, len: libc::size_t) -> l
         }
         if a <= ms && end >= me {
             maps[i].live = false; // released entirely
+            maps[i].dead_exact = a == ms && end == me;
         } else if a <= ms {
             // head trimmed
             maps[i].addr = end;
